@@ -108,12 +108,33 @@ func checkState(o *obs, idx map[*token]idxInfo, reorgRan bool, f *findings) {
 	}
 	gl := o.cs.gasLimit()
 	totalP, totalQ := o.count()
+	if o.drainErr != "" {
+		f.add("proposer-iteration", "%s", o.drainErr)
+	}
+	if o.pendSize != totalP || o.p3n != totalP {
+		f.add("pendingsize-vs-content", "PendingSize() = %d, len(GetPendingData()) = %d but Content() holds %d pending", o.pendSize, o.p3n, totalP)
+	}
 	for s := 0; s < NS; s++ {
 		S := senderNames[s]
 		sn := uint64(o.cs.Nonce[s])
 		bal := o.cs.balance(s)
 		if !sameList(o.P[s], o.P2[s]) {
 			f.add("pending-vs-content", "Pending() of %s = [%s] but Content() pending = [%s]", S, tokNames(o.P2[s]), tokNames(o.P[s]))
+		}
+		if !sameList(o.P[s], o.P3[s]) {
+			f.add("pendingdata-vs-content", "GetPendingData() lists [%s] for %s but Content() pending = [%s]", tokNames(o.P3[s]), S, tokNames(o.P[s]))
+		}
+		if !sameList(o.P[s], o.P4[s]) || !sameList(o.Q[s], o.Q4[s]) {
+			f.add("contentfrom-vs-content", "ContentFrom(%s) = [%s] / [%s] but Content() = [%s] / [%s]", S, tokNames(o.P4[s]), tokNames(o.Q4[s]), tokNames(o.P[s]), tokNames(o.Q[s]))
+		}
+		var drained []*token
+		for _, t := range o.drain {
+			if t.sender == s {
+				drained = append(drained, t)
+			}
+		}
+		if o.drainErr == "" && !sameList(o.P[s], drained) {
+			f.add("proposer-iteration", "the price-and-nonce iteration over Pending() yields [%s] for %s but Content() pending = [%s]", tokNames(drained), S, tokNames(o.P[s]))
 		}
 		stale := false
 		for _, t := range o.P[s] {
